@@ -402,6 +402,7 @@ class World:
         self.max_steps = 5_000_000
         self.files = {}            # file name -> text written by the analysed code (abstract file system)
         self.stdout = None         # list of printed lines when capture is on
+        self.stderr = None         # lines printed with file=... (diagnostics) when capture is on
 
     def module(self, dotted):
         if dotted not in self.cache:
@@ -1030,7 +1031,7 @@ class Interp:
             return o.node.name
         if isinstance(o, (str, list, set, dict, tuple, frozenset, collections.defaultdict, int, bytes, FakeFile)):
             return ("pymethod", o, a)
-        if type(o).__module__ in ("pathlib",):
+        if type(o).__module__ in ("pathlib", "re"):
             v = getattr(o, a)
             return ("pymethod", o, a) if callable(v) else v
         if o is None:
@@ -1155,7 +1156,11 @@ class Interp:
             return (max if name == "max" else min)(xs)
         if name == "print":
             w = self.mod.world
-            if w.stdout is not None and "file" not in kw:
+            if "file" in kw:
+                if w.stderr is not None:
+                    w.stderr.append(" ".join(self.to_str(a) if isinstance(a, (Obj, EnumMember, Term, list)) else str(a) for a in args))
+                return None
+            if w.stdout is not None:
                 w.stdout.append(" ".join(self.to_str(a) if isinstance(a, (Obj, EnumMember, Term, list)) else str(a) for a in args))
             return None
         if name == "sys.exit":
